@@ -83,7 +83,7 @@ pub fn merged<E: Est>(out: &mut Out, t: &Tree, trace: Trace, rng: &mut Rng, allo
 fn sizes(tier: &str) -> (usize, Vec<(usize, usize)>) {
     // (datasets per small n, [(n, how many)])
     if tier == "thorough" { (12, vec![(50, 40), (100, 40), (1000, 30), (10_000, 10), (100_000, 3), (1_000_000, 1)]) }
-    else { (3, vec![(50, 8), (100, 8), (1000, 6), (10_000, 2), (70_000, 1)]) }
+    else { (3, vec![(50, 8), (100, 8), (1000, 6), (10_000, 2), (70_000, 1), (150_000, 1)]) }
 }
 
 /// C01: Mean and Variance, one observation at a time
@@ -215,6 +215,9 @@ pub fn c02(out: &mut Out, tier: &str, rng: &mut Rng) {
         huge_counts::<average::Moments4>(out, d, x);
         huge_counts::<M6>(out, d, x);
     }
+    // a high order at huge counts (powers of the counts overflow long before the weights n_a/n, n_b/n do)
+    huge_counts::<M34>(out, &[1.0, 2.0, 4.0, 8.0], &[3.0, 5.0]);
+    sampled_trees::<M34>(out, tier, rng, &allow_all, -4.0, 4.0);
     sampled_trees::<average::Mean>(out, tier, rng, &allow_all, -25.0, 25.0);
     sampled_trees::<average::Variance>(out, tier, rng, &allow_all, -25.0, 25.0);
     sampled_trees::<average::Skewness>(out, tier, rng, &allow_all, -25.0, 25.0);
@@ -335,6 +338,15 @@ pub fn c04(out: &mut Out, tier: &str, rng: &mut Rng) {
     c04_for::<M3>(out, tier, rng);
     c04_for::<M13>(out, tier, rng);
     c04_for::<M16>(out, tier, rng);
+    // a long stream of small-magnitude data: (delta/n)^p is n^p times smaller than the term it produces
+    {
+        let n = if tier == "thorough" { 300_000 } else { 120_000 };
+        let d: Vec<f64> = (0..n).map(|_| rng.unit() * 2f64.powi(-90)).collect();
+        let mut e = M10::new(); for x in &d { e.add(*x); }
+        if out.next_case() { let accs = observe(out, &e); oracle_mom(out, &d, &accs, &|s: &str| matches!(s, "mean" | "len" | "cm2" | "cm4" | "cm8" | "cm10" | "sm8" | "sm10")); }
+        let mut e8 = M8::new(); for x in &d { e8.add(*x); }
+        if out.next_case() { let accs = observe(out, &e8); oracle_mom(out, &d, &accs, &|s: &str| matches!(s, "mean" | "len" | "cm2" | "cm6" | "cm8" | "sm8")); }
+    }
     polled_suite::<average::Moments4>(out, tier, rng, &allow_all);
     polled_suite::<M6>(out, tier, rng, &allow_all);
     for (d, x) in HUGE_BASES {
